@@ -984,9 +984,18 @@ pub trait QueryBuilder:
     ) {
         write!(sql, "CASE ").unwrap();
         let mut i = 0;
+        // the ordered expression is an operand of `=`: keep its parentheses unless it binds tighter
+        let drop_paren =
+            self.inner_expr_well_known_greater_precedence(&order_expr.expr, &BinOper::Equal.into());
         for value in &values.0 {
             write!(sql, "WHEN ").unwrap();
+            if !drop_paren {
+                write!(sql, "(").unwrap();
+            }
             self.prepare_simple_expr(&order_expr.expr, sql);
+            if !drop_paren {
+                write!(sql, ")").unwrap();
+            }
             write!(sql, "=").unwrap();
             let value = self.value_to_string(value);
             write!(sql, "{value}").unwrap();
